@@ -38,6 +38,8 @@ from collections.abc import Sequence
 from solvor.types import Result, Status
 from solvor.utils import check_positive
 
+_EPS = 1e-9  # same absolute slack as knapsack.py: 0.3 - 0.2 must still take a 0.1
+
 __all__ = ["solve_bin_pack"]
 
 
@@ -99,13 +101,13 @@ def solve_bin_pack(
             # Find bin with least remaining space that still fits
             best_remaining = float("inf")
             for b, (remaining, _) in enumerate(bins):
-                if size <= remaining < best_remaining:
+                if size <= remaining + _EPS and remaining < best_remaining:
                     best_remaining = remaining
                     best_bin = b
         else:
             # First-fit: find first bin that fits
             for b, (remaining, _) in enumerate(bins):
-                if size <= remaining:
+                if size <= remaining + _EPS:
                     best_bin = b
                     break
 
